@@ -120,7 +120,51 @@ def main():
         report(&mut out, "group%d:absent_is_null", words2 == expect2, format!("{:?} vs {:?}", words2, expect2));
     }
 """ % (k, len(keys), exp_all, k, k, k, k, exp_l2, k))
-    src.append("""fn raw8<T>(t: &T) -> [usize; 8] {
+    # containers: instance, context, temporary storage at the predicted word offsets (single-trait objects)
+    src.append("""#[cglue_trait] pub trait CPlain { fn cp_me(&self) -> usize; }
+#[cglue_trait] pub trait CHolder {
+    #[wrap_with_obj_ref(CPlain)]
+    type Ret: CPlain + 'static;
+    fn ch_inner(&self) -> &Self::Ret;
+    fn cp_me(&self) -> usize;
+}
+pub struct CIn { pub v: u64 }
+impl CPlain for CIn { fn cp_me(&self) -> usize { self as *const _ as usize } }
+pub struct CHd { pub inner: CIn }
+pub struct CHp { pub inner: CIn }
+impl CHolder for CHd { type Ret = CIn; fn ch_inner(&self) -> &CIn { &self.inner } fn cp_me(&self) -> usize { self as *const _ as usize } }
+impl CPlain for CHp { fn cp_me(&self) -> usize { self as *const _ as usize } }
+""")
+    for cs in sorted(data.get("containers", []), key=lambda x: json.dumps(x, sort_keys=True)):
+        k, at = cs["case"], cs["at"]
+        ty, tr = ("CHd", "CHolder") if k["tmp"] == "objref" else ("CHp", "CPlain")
+        val = "%s { inner: CIn { v: 3 } }" % ty
+        inst = "&href" if k["inst"] == "ref" else val
+        arg = "(%s, CArc::<u64>::from(a.clone()))" % inst if k["ctx"] == "arc" else inst
+        label = "container:%s/%s/%s" % (k["inst"], k["ctx"], k["tmp"])
+        tmp_chk = ""
+        if k["tmp"] == "objref":
+            tmp_chk = """        let inner_me = { let r = o.ch_inner(); r.cp_me() };
+        let w = words(&o);
+        report(&mut out, "%s:tmp", w.len() > %d && w[%d] != 0 && w[%d] == inner_me%s, format!("words {:x?}, inner at {:x}, context at {:x}", w, inner_me, ap));
+""" % (label, at["tmp_at"] + 1, at["tmp_at"], at["tmp_at"] + 1, (" && w[%d] == ap" % (at["tmp_at"] + 2)) if k["ctx"] == "arc" else "")
+        checks.append("""    {
+        let a = std::sync::Arc::new(77u64);
+        let ap = std::sync::Arc::as_ptr(&a) as usize;
+        let href = %s;
+        let o = trait_obj!(%s as %s);
+        let me = o.cp_me();
+        let w = words(&o);
+        report(&mut out, "%s:size", w.len() == %d, format!("{} words, expected %d", w.len()));
+        report(&mut out, "%s:instance", w.len() > %d && w[%d] == me, format!("words {:x?}, instance at {:x}", w, me));
+%s%s    }
+""" % (val, arg, tr, label, at["words"], at["words"], label, at["inst_at"], at["inst_at"],
+       ("""        report(&mut out, "%s:context", w.len() > %d && w[%d] == ap, format!("words {:x?}, context payload at {:x}", w, ap));
+""" % (label, at["ctx_at"], at["ctx_at"])) if k["ctx"] == "arc" else "", tmp_chk))
+    src.append("""fn words<T>(t: &T) -> Vec<usize> {
+    (0..std::mem::size_of::<T>() / 8).map(|i| unsafe { *(t as *const T as *const usize).add(i) }).collect()
+}
+fn raw8<T>(t: &T) -> [usize; 8] {
     let mut o = [0usize; 8];
     let n = (std::mem::size_of::<T>() / 8).min(8);
     for i in 0..n { o[i] = unsafe { *(t as *const T as *const usize).add(i) }; }
